@@ -56,7 +56,20 @@ def main(argv):
         v = core.Verdict(pid, tier, seed)
         last = (buf.getvalue().strip().splitlines() or ["(no output)"])[-1][:160]
         v.notes["binding_selftest"] = ("passed: " if st == 0 else "FAILED: ") + last
-        rc = mod.run(v)
+        try:
+            rc = mod.run(v)
+        except core.MachineryError:
+            raise
+        except Exception as ex:          # noqa: BLE001
+            # a part of the check that runs outside the per-case replays (end-to-end traces, sweeps) was aborted by an exception
+            # raised inside the library: on the unchanged tree none is, so this is what the tree under test does
+            tb = traceback.format_exc()
+            frames = tb.split("Traceback")[-1]
+            if "cherab/" in frames or 'File "cherab' in frames or "raysect/" in frames:
+                v.violation(f"run-raised-{type(ex).__name__}@library", tb[-1800:], None)
+                rc = v.finish(rule="the run was aborted by an exception raised inside the library; cases counted up to that point")
+            else:
+                raise
         if st != 0 and rc == 0:
             # the self-test executes real code too: if the tree under test breaks its known-good example the run above
             # reports that as a violation; a failed self-test with a clean run means the harness itself is broken
